@@ -14,6 +14,14 @@ HARNESSES = {
         "libs": LIBS_IO,
         "variants": ["san", "san-ndebug"],
     },
+    "writer": {
+        "source": "writer.cpp",
+        "defines": ["-DOSMIUM_WITH_LZ4"],
+        "sim_sources": SIM_IO,
+        "wraps": WRAPS_IO,
+        "libs": LIBS_IO,
+        "variants": ["san"],
+    },
     "c09": {
         "source": "c09.cpp",
         "sim_sources": SIM_IO,
@@ -133,4 +141,35 @@ PROPERTIES["C09"] = {
     "components_real": ["GzipDecompressor, GzipBufferDecompressor, Bzip2Decompressor, Bzip2BufferDecompressor, GzipCompressor, Bzip2Compressor, CompressionFactory", "zlib and libbz2 (statically linked, unmodified)", "glibc stdio over a cookie stream"],
     "components_stubbed": ["open/read/write/close/dup/fsync/fstat/lseek on /sim/ paths (in-memory file system)", "payload streams are produced by the harness with zlib/libbz2 directly (reference compressor)"],
     "assumptions": ["single-threaded: the decompressor classes are driven directly, no scheduler decisions are involved", "the reference decompression is the identity on the generated payload (the harness compressed it itself)", "sizes of 1 MiB and several MiB are only reached in the thorough tier through the shipped buffer size with payloads up to 200 KB; MiB-sized payloads are not generated"],
+}
+
+WRITER_REAL = ["osmium::io::Writer with its pool workers and write thread", "XML/OPL/PBF encoders, string table, PrimitiveBlock", "NoCompressor/GzipCompressor/Bzip2Compressor, reliable_write/fsync/close",
+               "osmium::io::Reader pipeline for reading back", "zlib, libbz2, expat, lz4 (statically linked, unmodified)", "glibc stdio over a cookie stream (bzip2)"]
+
+PROPERTIES["C08"] = {
+    "level": "fault_enumeration",
+    "budget_s": {"quick": 80, "thorough": 1500},
+    "rule": "one evaluation = one generated data set written by the real Writer (XML, XML change, OPL, PBF x none/gzip/bzip2 x fsync x feeding script of whole buffers / single items / flush()) under a seeded schedule with soft perturbation (short writes, EINTR on the plain path) and at most one hard fault: the write reaching byte offset o of the would-be output fails (ENOSPC/EFBIG/EIO, with or without a preceding partial write), fsync fails, the n-th close fails, compress2() fails in a pool worker, or an object the OPL encoder cannot encode. o is drawn over the size learnt from a fault-free reference write of the same script. "
+            "Non-trivial = a fault fired or >= 2 threads enabled at once; distinct = distinct event-log signature.",
+    "modes": [
+        {"mode": "c08", "harness": "writer", "runs": {"quick": 40000, "thorough": 1500000}},
+    ],
+    "expected_probes": ["hard fault fired", "exception reached the caller", "fault-free or soft-only run succeeded"],
+    "components_real": WRITER_REAL,
+    "components_stubbed": READER_STUB + ["compress2() failure injected by a link-time wrapper"],
+    "assumptions": COMMON_ASSUMPTIONS + ["fault offsets are sampled by the seed over the whole would-be output (with a bias to the last 16 bytes), not enumerated byte by byte", "write() returning 0 for a non-zero count is not injected (cannot happen on regular files)"],
+}
+
+PROPERTIES["C01"] = {
+    "level": "exploration",
+    "budget_s": {"quick": 80, "thorough": 1500},
+    "rule": "one evaluation = one generated data set (boundary-heavy ids, versions, timestamps, coordinates, Unicode/XML/OPL-special strings, history, changesets with discussions, way node locations) written with a tape-chosen format/compression/option vector (dense, pbf_compression, add_metadata subsets, locations_on_ways, fsync, feeding script) under a seeded schedule with short writes/EINTR, read back under another seeded schedule (pool 1..32, queue bounds, fd or memory, random piece sizes) and compared object by object with the digest of the buffers that were written, after a per-format mask; PBF files are additionally checked by an independent framing parser against the format limits. "
+            "Non-trivial = >= 2 threads enabled at once or a soft fault fired; distinct = distinct event-log signature incl. the file bytes.",
+    "modes": [
+        {"mode": "c01", "harness": "writer", "runs": {"quick": 25000, "thorough": 800000}},
+    ],
+    "expected_probes": ["round trip compared object by object"],
+    "components_real": WRITER_REAL,
+    "components_stubbed": READER_STUB,
+    "assumptions": COMMON_ASSUMPTIONS + ["restricted claim: the input/option space is sampled by the workload generator; data sets have up to 120 objects, so the 8000-entity and 32 MiB block limits are checked by the framing parser but not provoked", "the per-format mask (which fields a format/option carries) is hand-derived from the encoders; each entry cites its source line"],
 }
